@@ -12,7 +12,7 @@ from ..astutil import text, short, endswith, calls_in
 from ..absdom import IntSet, cond_set, INF
 from ..dataflow import DefUse
 from .. import events as E
-from ._h_F import ifn, Res, res_of, call_arg, canon, atoms, is_none, alias_group, need
+from ._h_F import ifn, Res, res_of, call_arg, canon, atoms, is_none, alias_group, need, repo_callees
 
 EXPLANATION = (
   "Decides, by interpreting the id-filling loop of doBulkAddOrReplace over an interval domain, "
@@ -322,6 +322,7 @@ def r3_docaction_assert(run, w):
           checks.add(n.id)
           loops |= {x.id for l in encl for x in r.nodes_of(l)}
   muts = E.mutation_nodes(fn) | fn.nodes_calling(E.is_undo_record)
+  need(muts, "the statements that record / apply the added rows", fn)
   ok = bool(checks) and all(cfg.dominated_by(m, loops) for m in muts) and \
       not (cfg.reach_after(muts) & checks)
   run.ob(R3, fn.qualname, "for row_id in row_ids: assert row_id not in table.row_ids",
@@ -347,7 +348,14 @@ def r4_counter(run, w, fn, fl):
         return True
     return False
   upd = [cfg.nodes[d] for d in sorted(r.defs.get(counter, ())) if d in fl.body]
-  ok = bool(upd) and counter is not None
+  need(counter is not None, "the counter that supplies new row ids", fn)
+  if not upd:
+    opaque = [c for n in cfg.nodes if n.id in fl.body for c in calls_in(n.exprs)
+              if repo_callees(w, fn, c)]
+    if opaque:
+      raise AnalysisError("doBulkAddOrReplace: the counter is not updated in the fill loop itself "
+                          "and the loop calls %s, which is not followed" % short(opaque[0].func, 40))
+  ok = bool(upd)
   for n in upd:
     v = r._plain_value(n, counter)
     ok = ok and v is not None and is_bump(v)
@@ -363,10 +371,11 @@ def r4_counter(run, w, fn, fl):
          node=upd[0].stmt if upd else fl.loop)
   # initial value, as seen on entry to the loop from outside
   init_ok = False
-  if counter is not None:
+  if True:
     outside = [p for p in cfg.pred[fl.head.id] if p not in fl.body]
     b = r.binding(fl.head.id, counter, after=outside)
-    if b is not None:
+    need(b is not None, "the counter's value on entry to the fill loop", fn)
+    if True:
       v = r.expand(b[0], b[1])
       cs = Res.cases(v)
       rp = fn.fi.params()[4] if len(fn.fi.params()) > 4 else "replace"
@@ -380,15 +389,19 @@ def r4_counter(run, w, fn, fl):
             leaf.func.attr == "next_row_id" and not leaf.args and \
             text(leaf.func.value) == table:
           n_next += 1
-        else:
+        elif isinstance(leaf, ast.Constant):
           init_ok = False
+        else:
+          raise AnalysisError("doBulkAddOrReplace: initial counter value %s not understood"
+                              % short(leaf, 60))
       init_ok = init_ok and n_next >= 1
   run.ob(R4, fn.qualname, "<counter> = 1 if replace else table.next_row_id()",
          "allocation starts above every existing row (or at 1 when the table is replaced)",
          init_ok, fi=fn.fi)
   nr = ifn(w, "table.Table.next_row_id")
   e = res_of(w, nr).result_expr()
-  ok = e is not None and text(e) in ("self.row_ids.max() + 1", "1 + self.row_ids.max()")
+  need(e is not None, "the value next_row_id() returns (a single expression)", nr)
+  ok = text(e) in ("self.row_ids.max() + 1", "1 + self.row_ids.max()")
   run.ob(R4, nr.qualname, "return self.row_ids.max() + 1", "next id is one past the largest "
          "existing id", ok, fi=nr.fi)
   # temp-id map is recorded from the original and the filled lists (C26 relies on it too)
